@@ -8,6 +8,18 @@ BASELINE = ("cd /repo && env -u OTEL2PUML_VERIF /venv/bin/python -m pytest -ra -
 
 # id -> (category, technique, level text, level note, design ref)
 TABLE = {
+    "C11": ("proof",
+            "Coq theorems about relational models of the three cleaning statements and their composition with streaming; in-kernel differential correspondence against SQLite; counterfactual runs",
+            "Universal Coq theorems for every store and window about Gallina models of remove_inconsistent_jobs, "
+            "remove_jobs_outside_of_time_window, update_job_names_by_root_span and get_time_window in otel_to_pv's order: a span "
+            "survives iff its trace has no child of a missing parent and has a span start or end inside the window; whole traces "
+            "go or stay; surviving rows keep every field except the workflow name, which becomes the root's; and under TraceClosed + "
+            "unique ids the cleaned store streams exactly the same OTel events as the cleaned store from which the removed traces "
+            "were never ingested (same window). Tied to /repo on every run: generated stores go through the real calls on SQLite "
+            "and through the model in coqc (row-by-row equality), and the counterfactual is also run through stream_data + the sequencer.",
+            "Trusted: Coq kernel+vm_compute; SQLite semantics of the statements as modelled (tied by correspondence); harness. The "
+            "counterfactual uses the same window; traces with several root spans are outside the name theorem.",
+            "4/C11"),
     "C10": ("proof",
             "Coq refinement theorem (batched two-transaction commit + fallback refines 'first occurrence of every new id'); in-kernel differential correspondence against SQLite",
             "Universal Coq theorems for every stream, duplicate placement, batch size (0, 1..n, larger than the stream) and number of "
@@ -56,7 +68,7 @@ TABLE = {
 }
 
 # properties whose check is finished and quiet on the unchanged tree
-READY = {"C08", "C10", "C12", "C16"}
+READY = {"C08", "C10", "C11", "C12", "C16"}
 
 NOT_YET = {
 }
